@@ -123,6 +123,15 @@ Qed.
 Lemma adm_same c c' : running c' = running c -> adm c c'.
 Proof. intros H rid id Hin. left. rewrite <- H. exact Hin. Qed.
 
+Lemma get_set_op c o' id :
+  get_op (set_op c o') id = option_map (fun x => if o_id x =? o_id o' then o' else x) (get_op c id).
+Proof. unfold get_op, set_op, set_ops, upd; cbn [ops]. apply find_put. Qed.
+
+Lemma get_set_op_same c o o' : get_op c (o_id o') = Some o -> get_op (set_op c o') (o_id o') = Some o'.
+Proof.
+  intros H. rewrite get_set_op, H. cbn. pose proof (get_op_id _ _ _ H) as I. rewrite I, Z.eqb_refl. reflexivity.
+Qed.
+
 Lemma frame_set_op c o o' : get_op c (o_id o') = Some o -> rel o o' -> Frame c (set_op c o').
 Proof.
   intros Ho R.
